@@ -68,6 +68,37 @@ CHECKS = {
         "Trusted: msgspec itself; the independent normal form in "
         "props/c12_serialize.py (treats documented unordered collections as "
         "sets)."),
+    "C05": (
+        "Hypothesis stub/program generation with print->parse->print round-trip "
+        "oracle",
+        "Generated stubs in the emitted dialect (normalised once) and the stubs "
+        "emitted for generated programs must parse, pass VerifyVisitor, be a "
+        "fixed point of Print(parse(.)) and of canonical_pyi, and re-read to "
+        "structurally equal declarations.",
+        "Trusted: the dialect generator vlib/gen_pyi.py reflects what pytype "
+        "prints (aliases that normalise to None are excluded: pytype prints "
+        "None-valued names as constants)."),
+    "C11": (
+        "Hypothesis stub generation x optimiser settings, finite-universe "
+        "denotational membership oracle + idempotence check",
+        "For each generated stub and each of 8 optimiser settings every "
+        "constant/parameter/return type is compared before/after on ~900 "
+        "abstract values (lower bound before <= upper bound after) and "
+        "Optimize is applied twice.",
+        "Trusted: vlib/den.py (exact on the modelled fragment, conservative "
+        "elsewhere); stub class hierarchy read from the loaded pytd classes."),
+    "C19": (
+        "bounded-exhaustive project enumeration + Hypothesis project generation; "
+        "independent build.ninja parser, dependency-closure oracle and "
+        "simulated execution of all/many topological schedules",
+        "All import digraphs on <=3 modules (4 in thorough) x module kinds x "
+        "requested subsets, driven through importlab's real DependencyGraph and "
+        "PytypeRunner.setup_build; every imports-map entry must be produced by a "
+        "statement in the dependency closure; every linearisation of small "
+        "plans is executed on a simulated file system; adversarial directory "
+        "names; cross-check with the real ninja binary.",
+        "Trusted: the ninja lexer in props/c19_buildplan.py (manual's lexical "
+        "rules) and importlab's SCC condensation."),
 }
 
 PENDING_REASON = ("check not built yet in this round; planned per DESIGN.md "
